@@ -171,9 +171,9 @@ theorem nt_go_upto (c : Codec) (s : Bytes) : ∀ (rest : List Bytes) (pre : Byte
   | cons n rest ih =>
     intro pre fuel acc hs hlt hne hf
     obtain ⟨f, rfl⟩ : ∃ f, fuel = f + 1 := ⟨fuel - 1, by omega⟩
-    obtain ⟨hg, _, hbe, hp1, hp2, hsl, hb, hs', hl', hle⟩ := step_facts s pre n rest hs hlt (hne n (by simp))
+    obtain ⟨hg, _, hbe, hp1, hsl, hb, hs', hl', hle⟩ := step_facts s pre n rest hs hlt (hne n (by simp))
     rw [naluTypes.go]
-    simp only [hg, if_true, hbe, hp1, hp2, hb, typesUpTo, true_and]
+    simp only [hg, if_true, hbe, hp1, if_false, hb, typesUpTo, true_and]
     by_cases hv : c.isVideo (c.typeOf (n.headD 0)) = true
     · simp only [hv, if_true]
     · have := ih (pre ++ put32 n.length ++ n) f (acc ++ [c.typeOf (n.headD 0)]) hs' hlt
@@ -208,13 +208,9 @@ theorem containsType_lenPrefixed (c : Codec) (ns : List Bytes) (h : NalusOK ns) 
   have hfuel : ns.length + 1 ≤ (lenPrefixed ns).length + 1 := by
     have := length_le_lenPrefixed ns; omega
   cases ns with
-  | nil => simp [containsType, lenPrefixed]
+  | nil => simp [containsType, containsType.go, lenPrefixed]
   | cons n rest =>
-    have h4 : ¬ (lenPrefixed (n :: rest)).length < 4 := by
-      have := nonempty_len (hnz n (by simp))
-      rw [lenPrefixed_length_cons]; omega
     unfold containsType
-    simp only [h4, if_false]
     exact ct_go c t (lenPrefixed (n :: rest)) (n :: rest) [] _ rfl hlt hnz hfuel
 
 /-- parameter sets before the first video unit -/
@@ -234,13 +230,13 @@ theorem ps_go (c : Codec) (isPS : Nat → Bool) (s : Bytes) : ∀ (rest : List B
   | nil =>
     intro pre fuel acc hs hlt _ hf
     obtain ⟨f, rfl⟩ : ∃ f, fuel = f + 1 := ⟨fuel - 1, by omega⟩
-    simp [paramSets.go, (end_facts s pre hs hlt).2, psSpec]
+    simp [paramSets.go, (end_facts s pre hs hlt).1, psSpec]
   | cons n rest ih =>
     intro pre fuel acc hs hlt hne hf
     obtain ⟨f, rfl⟩ : ∃ f, fuel = f + 1 := ⟨fuel - 1, by omega⟩
-    obtain ⟨_, hg, hbe, hp1, hp2, hsl, hb, hs', hl', hle⟩ := step_facts s pre n rest hs hlt (hne n (by simp))
+    obtain ⟨hg, _, hbe, hp1, hsl, hb, hs', hl', hle⟩ := step_facts s pre n rest hs hlt (hne n (by simp))
     rw [paramSets.go]
-    simp only [hg, if_true, hbe, hp1, hp2, hb, hsl, psSpec]
+    simp only [hg, if_true, hbe, hp1, if_false, hb, hsl, psSpec]
     have ih' := fun acc' => ih (pre ++ put32 n.length ++ n) f acc' hs' hlt
       (fun m hm => hne m (by simp [hm])) (by simp at hf; omega)
     rw [hl'] at ih'
